@@ -15,22 +15,26 @@ CONSTANTS Configs, Targets
 VARIABLES up,         \* has a logger been installed?
           cur,        \* the installed configuration (meaningless while ~up)
           globalMax,  \* log::max_level(); the facade starts at Off (0)
-          reconfigs   \* number of reconfigurations so far (history length)
-vars == <<up, cur, globalMax, reconfigs>>
+          reconfigs,  \* number of reconfigurations so far (history length)
+          fresh       \* TRUE right after init / set_config, FALSE once something else moved the facade's maximum
+vars == <<up, cur, globalMax, reconfigs, fresh>>
 
-Init == up = FALSE /\ cur = (CHOOSE c \in Configs : TRUE) /\ globalMax = 0 /\ reconfigs = 0
+Init == up = FALSE /\ cur = (CHOOSE c \in Configs : TRUE) /\ globalMax = 0 /\ reconfigs = 0 /\ fresh = TRUE
 \* init_config / init_config_with_err_handler / init_raw_config: build, set_max_level, set_boxed_logger
-InitConfig(c) == ~up /\ up' = TRUE /\ cur' = c /\ globalMax' = MaxLevel(c) /\ UNCHANGED reconfigs
+InitConfig(c) == ~up /\ up' = TRUE /\ cur' = c /\ globalMax' = MaxLevel(c) /\ fresh' = TRUE /\ UNCHANGED reconfigs
 \* Handle::set_config: build, set_max_level(new max), store
-SetConfig(c) == up /\ UNCHANGED up /\ cur' = c /\ globalMax' = MaxLevel(c) /\ reconfigs' = reconfigs + 1
-Next == \E c \in Configs : InitConfig(c) \/ SetConfig(c)
+SetConfig(c) == up /\ UNCHANGED up /\ cur' = c /\ globalMax' = MaxLevel(c) /\ fresh' = TRUE /\ reconfigs' = reconfigs + 1
+\* the environment: anybody may call log::set_max_level directly (a second, failing init_config does so
+\* too); the next reconfiguration must install the configuration's maximum again
+Drift(l) == up /\ fresh /\ globalMax' = l /\ fresh' = FALSE /\ UNCHANGED <<up, cur, reconfigs>>
+Next == (\E c \in Configs : InitConfig(c) \/ SetConfig(c)) \/ (\E l \in 0..5 : Drift(l))
 Spec == Init /\ [][Next]_vars
 
 \* what a log macro does with (t, L): facade filter, then the logger
 MacroDelivers(t, L) == IF ~up \/ L > globalMax \/ ~Enabled(cur, t, L) THEN <<>> ELSE Attach(cur, EffName(cur, t))
 
-GlobalMaxExact == up => globalMax = MaxLevel(cur)
-FacadeNeverHides == up => \A t \in Targets, L \in 1..5 : Enabled(cur, t, L) => L <= globalMax
-MacrosReachRouting == up => \A t \in Targets, L \in 1..5 :
+GlobalMaxExact == (up /\ fresh) => globalMax = MaxLevel(cur)
+FacadeNeverHides == (up /\ fresh) => \A t \in Targets, L \in 1..5 : Enabled(cur, t, L) => L <= globalMax
+MacrosReachRouting == (up /\ fresh) => \A t \in Targets, L \in 1..5 :
                         MacroDelivers(t, L) = (IF Enabled(cur, t, L) THEN Attach(cur, EffName(cur, t)) ELSE <<>>)
 =============================================================================
